@@ -463,6 +463,52 @@ func writeStringConstCalls(fn *ssa.Function, lit string) []*ssa.Call {
 			out = append(out, call)
 		}
 	})
+	// the same text as the constant front of a byte-slice literal handed to Write:
+	// e.Write([]byte{'\\', 'u', '2', '0', '2', hex[c&0xF]})
+	allInstrs(fn, func(i ssa.Instruction) {
+		call, ok := i.(*ssa.Call)
+		if !ok {
+			return
+		}
+		f := call.Call.StaticCallee()
+		if f == nil || !strings.HasSuffix(stdName(f), "(*Buffer).Write") || len(call.Call.Args) == 0 {
+			return
+		}
+		sl, ok := call.Call.Args[len(call.Call.Args)-1].(*ssa.Slice)
+		if !ok {
+			return
+		}
+		al, ok := sl.X.(*ssa.Alloc)
+		if !ok || al.Referrers() == nil {
+			return
+		}
+		front := map[int64]byte{}
+		for _, r := range *al.Referrers() {
+			ia, ok := r.(*ssa.IndexAddr)
+			if !ok || ia.Referrers() == nil {
+				continue
+			}
+			idx, okI := intConst(ia.Index)
+			for _, r2 := range *ia.Referrers() {
+				if st, ok := r2.(*ssa.Store); ok && okI {
+					if k, isK := intConst(st.Val); isK && k >= 0 && k < 256 {
+						front[idx] = byte(k)
+					}
+				}
+			}
+		}
+		spelled := make([]byte, 0, len(lit))
+		for j := int64(0); j < int64(len(lit)); j++ {
+			c, ok := front[j]
+			if !ok {
+				return
+			}
+			spelled = append(spelled, c)
+		}
+		if string(spelled) == lit {
+			out = append(out, call)
+		}
+	})
 	return out
 }
 
